@@ -220,6 +220,12 @@ def only_neighbors(ctx, res):
     """Traversals and searches move through the graph only via helpers.neighbors."""
     prog = common.program(ctx)
     banned = {"links", "_links", "v1", "v2", "other", "_vertices"}
+    try:
+        from sa.harness import H
+        act = H(ctx.src).actual
+        banned |= {act["links"], act["ends"]}
+    except Exception:  # noqa: BLE001 - the canonical names still apply
+        pass
     n = 0
     for mod in ("edgegraph.traversal.breadthfirst", "edgegraph.traversal.depthfirst"):
         if mod not in prog.modules:
